@@ -29,9 +29,15 @@
 //	C07/scope-while-open/{dialer,listener}, C07/scope-after-close/{dialer,listener}
 //	C07/panic
 //
-// Strata (drawn first): fault-free (4/5) and one injected resource-manager refusal of SetProtocol on either
-// node (1/5; an open may then fail, liveness oracles and "handler ran for a failed open" are off, every
-// safety oracle stays on).
+// Strata (drawn first): fault-free with real resource managers (3/5); one injected resource-manager refusal
+// of SetProtocol on either node (1/5; an open may then fail, liveness oracles and "handler ran for a failed
+// open" are off, every safety oracle stays on); fault-free with network.NullResourceManager on both nodes
+// (1/5; its stream scope accepts any number of SetProtocol calls, so a second SetProtocol issued by a host's
+// handler wrapper takes effect instead of being refused with "already attached"; scope oracles off).
+// Stream usages: Write+Read | Write, CloseWrite, Read | no I/O | first Read racing the first Write |
+// read-only client (CloseWrite is the very FIRST operation, then Read: the handler answers on a clean EOF).
+// Whatever the first operation is, a stream bound to an ID that every possible handler table matches must
+// not fail at first use (C07/first-use-failed-although-supported).
 //
 // Weaker readings taken (guide rule 6):
 //   - "fails at the latest on first use": an optimistic Write cannot know the answer; first use is the
@@ -76,6 +82,12 @@
 //	m14 blank newStreamHandler drops the SetProtocol error (before 53b34e0) -> C07/handler-on-unbound-stream/blank-listener/refusal-injected;
 //	      ~9 700 runs / 30 s (needs blank listener + refusal on the listener hitting the user stream + handler registered through Mux())
 //	m15 multistream AddHandlerWithFunc does not replace a handler of the same name -> C07/removed-handler-ran; ~15 runs
+//
+// Seeded by the lead (scratch worktree + VERIF_REPO, ./check C07 quick, 8 workers), both missed before the
+// read-only usage / the null-manager stratum existed, both caught now:
+//
+//	s1  streamWrapper.CloseWrite half-closes before flushing the lazy handshake -> C07/first-use-failed-although-supported/lazy (run 0)
+//	s2  blank SetStreamHandler(/Match) wrappers call SetProtocol(registration id) -> C07/ends-disagree/{eager,lazy,unused} (~3 400 runs, 18 s)
 //
 // Not caught by design: identify never pushing protocol changes (the statement allows stale knowledge to fail at first use).
 //
